@@ -93,12 +93,17 @@ def handle (line : String) : String :=
     | some mode, some nrcpt, some signed, some comp, some bs, some namelen, some ch, some n =>
       let rest := n - ch.foldl (· + ·) 0
       let chunks := ch ++ (if rest > 0 then [rest] else [])
-      let sigs := if signed == 1 then "sig=ok" else "sig=none"
-      if mode == "sign" then s!"rt=ok {sigs} outer=4,11p,2"
-      else
-        let keys := if mode == "sym" then "3" else ",".intercalate (List.replicate nrcpt "1")
-        let body := if mode == "sym" && comp == 0 && signed == 0 then s!"18p[{showNats (chunksOf (outerWrites bs namelen chunks))}]" else "18p"
-        s!"rt=ok {sigs} outer={keys},{body}"
+      -- the structure the writer emits, run through the ReadMessage acceptor (`signed_message_grammar`)
+      let shape := writerShape mode nrcpt (signed == 1) (comp != 0)
+      match readMessage true 0 shape with
+      | .err => "rt=err"
+      | .ok _ sg v =>
+        let sigs := if sg then (if v then "sig=ok" else "sig=unverified") else "sig=none"
+        let tags := (outerTags 0 shape).map (fun t =>
+          if t == 18 then
+            (if mode == "sym" && comp == 0 && signed == 0 then s!"18p[{showNats (chunksOf (outerWrites bs namelen chunks))}]" else "18p")
+          else if t == 11 then "11p" else toString t)
+        s!"rt=ok {sigs} outer={",".intercalate tags}"
     | _, _, _, _, _, _, _, _ => "bad-op"
   -- the property: every modification of a signed or integrity-protected message is rejected
   | "tamper" => "accepted=-"
